@@ -80,6 +80,14 @@ func PositionFamily(ctx *core.Ctx) {
 			{"key", []core.Cmd{core.CPrint(core.EBin("elvis", core.EVar("m", core.AExpr(e, true)), core.EStr("none")))}, pe.typ == "str"},
 			{"css", []core.Cmd{core.CCss(e, "suf")}, pe.typ == "str" || pe.typ == "int"},
 			{"call-data", []core.Cmd{core.CCall("t.d", "expr", e)}, pe.typ == "map"},
+			{"let-content", []core.Cmd{core.CLetC("w", []core.Cmd{core.CText("["), core.CPrint(e), core.CText("]")}), core.CPrint(core.EVar("w"))}, pe.typ != "undef"},
+			{"param-content", []core.Cmd{core.CCall("t.c", "none", nil, core.CPC("z", []core.Cmd{core.CPrint(e), core.CText("|")}))}, pe.typ != "undef"},
+			{"log-content", []core.Cmd{core.CLog([]core.Cmd{core.CPrint(e)}), T}, pe.typ != "undef"},
+			{"nested-content", []core.Cmd{core.CLetC("w", []core.Cmd{core.CCall("t.c", "none", nil, core.CPC("z", []core.Cmd{core.CLog([]core.Cmd{core.CPrint(e)}), core.CPrint(e)}))}), core.CPrint(core.EVar("w"))}, pe.typ != "undef"},
+			{"callee-from-content", []core.Cmd{core.CLetC("w", []core.Cmd{core.CCall("t.c", "none", nil, core.CPV("z", e))}), core.CPrint(core.EVar("w")),
+				core.CCall("t.c", "none", nil, core.CPC("z", []core.Cmd{core.CCall("t.c", "none", nil, core.CPV("z", e))}))}, true},
+			{"ij-in-callee-from-content", []core.Cmd{core.CLetC("w", []core.Cmd{core.CCall("t.i", "none", nil)}), core.CPrint(core.EVar("w")),
+				core.CCall("t.c", "none", nil, core.CPC("z", []core.Cmd{core.CCall("t.i", "all", nil)})), core.CLog([]core.Cmd{core.CCall("t.i", "none", nil)})}, ei == 0},
 			{"tern-branch", []core.Cmd{core.CPrint(core.ETern(core.EVar("c"), e, e))}, pe.typ != "undef"},
 		}
 		for _, po := range positions {
@@ -96,6 +104,7 @@ func PositionFamily(ctx *core.Ctx) {
 				Bundle: map[string]*core.Tmpl{
 					"t.m": {Params: []core.Param{{Name: "a"}, {Name: "b"}, {Name: "c"}, {Name: "n"}, {Name: "u", Opt: true}, {Name: "x"}, {Name: "m"}}, Body: body, TA: "false"},
 					"t.c": {Params: []core.Param{{Name: "z", Opt: true}}, Body: []core.Cmd{core.CPrint(core.EFn("isNonnull", z())), core.CPrint(core.EBin("elvis", z(), core.EStr("?")))}, TA: "false"},
+					"t.i": {Params: []core.Param{}, Body: []core.Cmd{core.CPrint(core.EVar("ij", core.AKey("k", false))), core.CLetC("v", []core.Cmd{core.CPrint(core.EVar("ij", core.AKey("k", false)))}), core.CPrint(core.EVar("v"))}, TA: "false"},
 					"t.d": {Params: []core.Param{{Name: "b", Opt: true}, {Name: "s", Opt: true}}, Body: []core.Cmd{core.CPrint(core.EBin("elvis", core.EVar("b"), core.EStr("nob"))), core.CPrint(core.EBin("elvis", core.EVar("s"), core.EStr("nos")))}, TA: "false"},
 				},
 				Entry: "t.m", Data: data, IJ: ij, Glob: glob, Plan: map[string]interface{}{"kind": "none"},
